@@ -70,6 +70,7 @@ for name, f, goals in [
     ("oneof_with_switch_deep", C.oneof_with_switch_deep, ("oneof_fallback",)),
     ("oneof_diamond", C.oneof_diamond, ("oneof_fallback",)),
     ("oneof_shared_inflight", C.oneof_shared_inflight, ("oneof_fallback",)),
+    ("oneof_diamond_shared", C.oneof_diamond_shared, ("oneof_fallback",)),
     ("oneof_reached_twice", C.oneof_reached_twice, ("oneof_fallback",)),
     ("retry_attempts_zero", C.retry_attempts_zero, ()),
     ("rec_simple", lambda: C.rec_simple(2, False, True), ("reiterated", "ref_fail_rec")),
@@ -243,6 +244,7 @@ for name, f, goals in [
     ("oneof_shared_dep", C.oneof_shared_dep, ()),
     ("oneof_diamond", C.oneof_diamond, ("oneof_fallback",)),
     ("oneof_shared_inflight", C.oneof_shared_inflight, ("oneof_fallback",)),
+    ("oneof_diamond_shared", C.oneof_diamond_shared, ("oneof_fallback",)),
     ("oneof_reached_twice", C.oneof_reached_twice, ("oneof_fallback",)),
 ]:
     _reg("C10", name, f, _c10, goals=goals)
@@ -371,14 +373,16 @@ def _slow(events: bool, store: bool, write_once: bool = False) -> Any:
 
 
 SLOW_SYMS = ("duration of every event callback / artifact save (0 = does not suspend)",)
-SLOW_DUR = {"oneof_shared_dep": {"H"}, "oneof_diamond": {"F", "S"}, "rec_simple": {"M"}, "switch_shared_case": set(),
+SLOW_DUR = {"oneof_shared_dep": {"H"}, "oneof_diamond": {"F", "S"}, "oneof_diamond_shared": {"F"}, "rec_simple": {"M"}, "switch_shared_case": set(),
             "shared_scopes": set(), "rec_inner_start": {"Side", "M"}, "rhombus": {"B", "C"}, "oneof_basic": {"C1"},
             "retry_chain": set()}
 for prop, verdict, hang_judged, cfgf, specs in [
     ("C01", None, False, _slow(True, True), [("oneof_shared_dep", C.oneof_shared_dep), ("oneof_diamond", C.oneof_diamond),
+                                             ("oneof_diamond_shared", C.oneof_diamond_shared),
                                              ("rec_simple", lambda: C.rec_simple(1, True)),
                                              ("switch_shared_case", C.switch_shared_case)]),
     ("C02", _nothing, True, _slow(True, True), [("oneof_shared_dep", C.oneof_shared_dep), ("oneof_diamond", C.oneof_diamond),
+                                                ("oneof_diamond_shared", C.oneof_diamond_shared),
                                                 ("rec_simple", lambda: C.rec_simple(2, False, True)),
                                                 ("switch_shared_case", C.switch_shared_case)]),
     ("C03", _c03, False, _slow(True, True), [("rec_inner_start", lambda: C.rec_inner_start(1)),
@@ -387,13 +391,15 @@ for prop, verdict, hang_judged, cfgf, specs in [
                                              ("rec_simple", lambda: C.rec_simple(1, True))]),
     ("C05", _c05, False, _slow(True, True), [("oneof_diamond", C.oneof_diamond), ("rhombus", lambda: C.rhombus(True))]),
     ("C09", _c09, False, _slow(True, False), [("switch_shared_case", C.switch_shared_case)]),
-    ("C10", _c10, False, _slow(True, True), [("oneof_shared_dep", C.oneof_shared_dep), ("oneof_diamond", C.oneof_diamond)]),
+    ("C10", _c10, False, _slow(True, True), [("oneof_shared_dep", C.oneof_shared_dep), ("oneof_diamond", C.oneof_diamond),
+                                             ("oneof_diamond_shared", C.oneof_diamond_shared)]),
     ("C11", _c11, False, _slow(True, True), [("rec_inner_start", lambda: C.rec_inner_start(1)),
                                              ("rec_simple", lambda: C.rec_simple(2, True))]),
     ("C14", _c14, False, _slow(True, False), [("rhombus", lambda: C.rhombus(True)), ("oneof_basic", C.oneof_basic),
                                               ("switch_shared_case", C.switch_shared_case),
                                               ("retry_chain", C.retry_chain)]),
     ("C19", _c19, False, _slow(False, True, True), [("rhombus", lambda: C.rhombus(False)), ("oneof_basic", C.oneof_basic),
+                                                    ("oneof_diamond_shared", C.oneof_diamond_shared),
                                                     ("retry_chain", C.retry_chain)]),
 ]:
     if verdict is None:
